@@ -30,7 +30,13 @@ LEVEL = "exploration"
 RULE = ("Hypothesis-drawn cases: hops 1..3, 0..3 manipulations of the n-th plaintext created cell on the wire (flip in "
         "identifier / key / auth / candidates / circuit id; ephemeral substitution with valid auth; swap with the created "
         "of a concurrently built circuit; replay of an earlier created after a retry; duplicate; delay past "
-        "next_hop_timeout; drop), optional second concurrent circuit, next_hop_timeout 10 s (default) or 3 s. Non-trivial = a manipulated created/extended reaches "
+        "next_hop_timeout; drop; late answer just before the next candidate's; damaged copy followed by the original; "
+        "create diverted to another verified peer that answers from its own address (impostor); substituted key with a "
+        "matching authenticator and no candidate list (substitute_empty); replay of a recorded create long after the "
+        "handshake; an answer naming another tunnel's circuit id (cid_of_exit, fixed seed range + drawn)), optional second "
+        "concurrent circuit, next_hop_timeout 10 s (default) or 3 s; a grid of every manipulation x position x 3 arguments "
+        "independent of VERIF_SEED. Clause K2 key_confirmation: keys the originator accepts for a hop of a circuit that "
+        "becomes ready are keys the selected peer holds. Non-trivial = a manipulated created/extended reaches "
         "the originator (or its relay) while a retry cache for that circuit is outstanding; distinct = the complete case "
         "(hops, seed, manipulations with arguments, second circuit, next_hop_timeout).")
 ASSUMPTIONS = [
